@@ -748,3 +748,15 @@ func init() {
 	expectedProbes["C04"] = []string{"c04_extreme_share_token_ratio", "c04_dust_against_huge_total"}
 	expectedProbes["C05"] = []string{"c05_after_slash", "c05_with_jailed_validator"}
 }
+
+func init() {
+	monitorRegistry["C09"] = func(s *Schedule) []Monitor { return []Monitor{newMonC09()} }
+	nontrivialRule["C09"] = "at least one end-of-block ran with a whole claim interval elapsed and an eligible asset (positive total, positive rate, rewards started)"
+	expectedProbes["C09"] = []string{"c09_deduction", "c09_multi_interval", "c09_just_after_boundary", "c09_exactly_at_boundary", "c09_dust_not_reduced", "c09_asset_in_warmup_skipped", "c09_clock_stalled"}
+}
+
+func init() {
+	monitorRegistry["C10"] = func(s *Schedule) []Monitor { return []Monitor{newMonC10()} }
+	nontrivialRule["C10"] = "at least one block with a trigger (alliance stake, native stake, weight, slash, bond status) ended while some bonded validator had a non-zero target or alliance-minted stake"
+	expectedProbes["C10"] = []string{"c10_trigger_native-stake", "c10_trigger_alliance-stake", "c10_trigger_slash", "c10_trigger_bond-status", "c10_trigger_reward-weight", "c10_trigger_warm-up-ended", "c10_full_native_undelegation", "c10_exchange_rate_not_one", "c10_non_bonded_with_module_stake"}
+}
